@@ -53,6 +53,16 @@ impl Command {
             Err(errno) => return report_find_and_open_file_failure(env, &self.file, errno).await,
         };
 
+        // Close the file when this function returns or is cancelled (the
+        // future of a built-in may be dropped when the shell is interrupted).
+        struct CloseOnDrop<S: Close>(S, Fd);
+        impl<S: Close> Drop for CloseOnDrop<S> {
+            fn drop(&mut self) {
+                _ = self.0.close(self.1);
+            }
+        }
+        let _close_on_drop = CloseOnDrop(env.system.clone(), fd);
+
         // TODO set positional parameters
 
         // Parse and execute the command script
@@ -70,8 +80,6 @@ impl Command {
             origin: self.file.origin,
         }));
         let divert = run_read_eval_loop.0(&ref_env, config).await;
-
-        _ = env.system.close(fd);
 
         let (exit_status, divert) = consume_return(divert);
         let exit_status = exit_status.unwrap_or(env.exit_status);
